@@ -280,7 +280,7 @@ func VerifC03_MixedUnknownModes() {
 func VerifC03_WithHelpOption() {
 	mode := vInt("mode", 0, 2)
 	um := vInt("um", 0, 2)
-	where := vInt("where", 0, 2)
+	where := vInt("where", 0, 4)
 	p := positional("p", "c", "sub", "help")
 	opt, _, _ := rawDefinition(mode, um, false)
 	opt.HelpCommand("help", opt.Alias("?"))
@@ -292,6 +292,11 @@ func VerifC03_WithHelpOption() {
 		args, want = []string{"--typo=1", p, "--help"}, []string{"--typo=1", p}
 	case 2:
 		args, want = []string{"c", "--help", "--typo", p}, []string{"--typo", p}
+	case 3:
+		// text in front of the help command travels on like in front of any command
+		args, want = []string{p, "help", "c"}, []string{p, "c"}
+	case 4:
+		args, want = []string{"c", p, "help"}, []string{p}
 	}
 	vPhase("run")
 	remaining, err := opt.Parse(args)
